@@ -17,6 +17,7 @@ type SpecEnv struct {
 	tvars map[string]types.Type
 	kord  int // kernel loop ordinal for K(x); 0 = none
 	inOld bool
+	pre   *State // state at loop entry (loop clauses only)
 }
 
 func (e *SpecEnv) with(name string, v Value) *SpecEnv {
@@ -303,6 +304,35 @@ func (u *Unit) evalSpecCall(env *SpecEnv, e *SExpr) Value {
 		n := *env
 		n.inOld = true
 		return u.evalSpec(&n, e.Args[0])
+	case "before":
+		// before(e): e evaluated in the state at loop entry
+		if env.pre == nil {
+			u.errorf("spec: before() outside a loop clause")
+			return intV(IntLit(0))
+		}
+		n := *env
+		n.cur = env.pre
+		n.inOld = false
+		return u.evalSpec(&n, e.Args[0])
+	case "loopSameExcept":
+		// like sameExcept, relative to the state at loop entry
+		if env.pre == nil {
+			u.errorf("spec: loopSameExcept() outside a loop clause")
+			return boolV(True)
+		}
+		n := *env
+		n.old = env.pre
+		e2 := *e
+		e2.Name = "sameExcept"
+		return u.evalSpec(&n, &e2)
+	case "spareDisjoint":
+		// readable(src) does not overlap the spare capacity of dst
+		a, b := arg(0), arg(1)
+		if !types.Identical(a.Elem, b.Elem) {
+			return boolV(True)
+		}
+		sd, dd := u.bufData(env.st(), a), u.bufData(env.st(), b)
+		return boolV(Or(Le(Add(sd.Ptr, sd.Len), Add(dd.Ptr, dd.Len)), Le(Add(dd.Ptr, dd.Cap), sd.Ptr)))
 	case "len", "cap", "ptr":
 		v := arg(0)
 		if v.K == KPtrData {
@@ -402,6 +432,8 @@ func (u *Unit) evalSpecCall(env *SpecEnv, e *SExpr) Value {
 		return intV(u.specFn("frameOf", arg(0).Term, arg(1).Term))
 	case "wf":
 		return boolV(u.wf(env.st(), arg(0)))
+	case "wfBase":
+		return boolV(u.wfBase(env.st(), arg(0)))
 	case "aligned":
 		b := arg(0)
 		d := u.bufData(env.st(), b)
@@ -519,6 +551,15 @@ func (u *Unit) evalSpecCall(env *SpecEnv, e *SExpr) Value {
 		}
 		d := u.bufData(env.old, b)
 		return boolV(Eq(u.heap(env.cur, b.Elem), Store(u.heap(env.old, b.Elem), Add(d.Ptr, i.Term), v.Term)))
+	case "heapSameBelow":
+		// heapSameBelow(x): every cell allocated in the old state is unchanged
+		t := u.elemOf(env, e.Args[0])
+		q := boundVar("q?" + fmt.Sprint(u.nextBound()))
+		return boolV(Forall([]*Term{q}, Imp(Lt(q, u.brk(env.old, t)), Eq(Select(u.heap(env.cur, t), q), Select(u.heap(env.old, t), q)))))
+	case "anyDataPtr":
+		// a pointer to the data field of an arbitrary buffer of element type T
+		t := u.elemOf(env, e.Args[0])
+		return Value{K: KPtrData, Elem: t, Term: u.ctx.Fresh("anybuf", SInt)}
 	case "hdrSame":
 		t := u.elemOf(env, e.Args[0])
 		var cs []*Term
@@ -648,13 +689,24 @@ func (u *Unit) wf(st *State, b Value) *Term {
 	}
 	d := u.bufData(st, b)
 	ch := u.bufCh(st, b)
+	return And(u.wfBase(st, b),
+		Imp(Ge(ch, IntLit(1)), Eq(d.Cap, u.specBI(ch, IntLit(0), u.specFn("fdiv", d.Cap, ch)))),
+		Imp(Eq(ch, IntLit(0)), Eq(d.Cap, IntLit(0))))
+}
+
+// wfBase: wf without the capacity-alignment clause (the state inside Append before alignCapacity).
+func (u *Unit) wfBase(st *State, b Value) *Term {
+	if b.K != KBuf {
+		u.errorf("spec: wfBase of non-buffer")
+		return True
+	}
+	d := u.bufData(st, b)
+	ch := u.bufCh(st, b)
 	bd := Select(u.fld(st, b.Elem, "bd"), b.Term)
 	return And(
 		Ge(b.Term, IntLit(0)), Lt(b.Term, u.obrk(st, b.Elem)),
 		Ge(ch, IntLit(0)),
 		u.validSlice(st, d),
-		Imp(Ge(ch, IntLit(1)), Eq(d.Cap, u.specBI(ch, IntLit(0), u.specFn("fdiv", d.Cap, ch)))),
-		Imp(Eq(ch, IntLit(0)), Eq(d.Cap, IntLit(0))),
 		Eq(bd, BVLit64(int64(u.widthOf(b.Elem)), 8)),
 	)
 }
